@@ -166,7 +166,7 @@ def injected_faults(sc, seed, tier, only=None):
                 a, b = sorted(r.sample(range(1, ncalls + 1), 2))
                 plans.append(((a, b), r.choice(errnos)))
         if only is not None:
-            plans = [(tuple(only["fail_at"]), getattr(E, only["errno"]))]
+            plans = [(tuple(only["fail_at"]), getattr(E, only["errno"]))] if "fail_at" in only else []
         for kk, en in plans:
             raw, lines = one({"SY_FAIL_AT": ",".join(map(str, kk)), "SY_FAIL_ERRNO": str(en)})
             stats["runs"] += 1; stats["pairs"] += 1 if len(kk) == 2 else 0
@@ -243,6 +243,18 @@ def injected_faults(sc, seed, tier, only=None):
                     viol.append(dict(ident, why="file %s was not touched by the failing call(s) but did not end up correct" % rel))
                 if d is False and b is not None and (a is None or a.get("sha") != b["sha"]):
                     viol.append(dict(ident, why="file %s was up to date, not touched by the failing call(s), and is changed or gone" % rel))
+        # (the verification-exit repair) silent corruption: the k-th data call is performed and one byte of what it wrote is flipped
+        # afterwards (SY_CORRUPT_AT).  The post-transfer verification is on by default: exit status 0 must still mean the C01 postcondition
+        if not xargs and not deletion_world:
+            wr = [k for k in sorted(calls) if calls[k][1] == "write" and not calls[k][2].endswith(".sy-checksums.db")]
+            for k in ([only["corrupt_at"]] if (only is not None and "corrupt_at" in only) else [] if only is not None else (wr if len(wr) <= 6 else sorted(r.sample(wr, 6)))):
+                raw, lines = one({"SY_CORRUPT_AT": str(k)})
+                stats["corruption_runs"] = stats.get("corruption_runs", 0) + 1
+                stats["corruption_runs_exit_nonzero"] = stats.get("corruption_runs_exit_nonzero", 0) + (1 if raw["rc"] != 0 else 0)
+                ident = {"world": "inject-%d" % i, "index": i, "tier": tier, "flags": fl, "corrupt_at": k, "call": calls[k][1:3], "seed": seed}
+                if raw["rc"] == 0:
+                    for f in c01.c01_oracle(fl, raw, 0):
+                        viol.append(dict(ident, why="one byte of the data written by call %d was flipped after the call; exit status 0 although the C01 postcondition fails: %s %s" % (k, f["path"], f["why"])))
         shutil.rmtree(base, ignore_errors=True); shutil.rmtree(tpl, ignore_errors=True)
     strip = lambda x: " ".join(t for t in x.split(" ") if not t.startswith("nerr="))
     efd = []
